@@ -7,6 +7,7 @@ import ALV.Lemmas.C06Call
 import ALV.Lemmas.C06Gain
 import ALV.Lemmas.C06Algebra
 import ALV.Lemmas.C06TwoCalls
+import ALV.Lemmas.C06Expr
 import ALV.Common.Audit
 
 set_option linter.unusedSectionVars false
@@ -441,19 +442,52 @@ theorem continued_eq_dropped (b as : List (Coef K)) (a0 : Coef K) (zero : K) (k 
       = tvspec b as a0 zero k mem [] xs := by
   rw [tvspec_dropC, Nat.zero_add]
 
-/-- **C06.10b** (`second_call_after_stream_gain`, a DEFECT of the code, D16): Stream gain.  The
-variable-gain path works on `den = self.denpoly` — an alias — and executes `den[0] = 0` on it, which
-deletes the gain from the filter object itself.  Whatever the first call returned, the second call
-of the same object finds `denpoly[0] == 0` and raises `ZeroDivisionError("Invalid filter gain")`
-before reading anything, where the property (and C06.10a for a constant gain) wants the difference
-equation with the streams continued. -/
-theorem second_call_after_stream_gain (num rest : Terms (Coef K)) (gs : List K) (mem1 mem2 : Mem K)
+/-- **C06.10b** (`second_call_continues_stream_gain`, the code after the repair of D16): Stream gain.
+The variable-gain path works on `den = Poly(self.denpoly)` — a new dictionary — so the filter object
+keeps its polynomials; its Streams have delivered one item per output (through the products with
+the tee copies of `1/a0`).  If the first output was ended by its input, the second call — the
+rewriting done again, its own memory, zero value and input — computes
+`a0[|xs1|+n]·y₂[n] = Σ_k b_k[|xs1|+n]·x₂[n−k] − Σ_{k≥1} a_k[|xs1|+n]·y₂[n−k]`. -/
+theorem second_call_continues_stream_gain (num rest : Terms (Coef K)) (gs : List K) (mem1 mem2 : Mem K)
     (zero1 zero2 : K) (xs1 xs2 : List K)
+    (hnum : List.Pairwise (fun x y : Int × Coef K => x.1 < y.1) num)
     (hden : List.Pairwise (fun x y : Int × Coef K => x.1 < y.1) (((0 : Int), Coef.strm gs) :: rest))
-    (hcn : ∀ kv ∈ num, 0 ≤ kv.1) :
-    (callTwice num (((0 : Int), Coef.strm gs) :: rest) mem1 zero1 xs1 mem2 zero2 xs2).2
-      = .error .zeroDivision :=
-  callTwice_gain num rest gs mem1 mem2 zero1 zero2 xs1 xs2 hden hcn
+    (hstored : ∀ kv ∈ num ++ rest, kv.2 ≠ Coef.const 0) (hcn : ∀ kv ∈ num, 0 ≤ kv.1)
+    (hnz : ¬ ((∀ c ∈ dense num, c = Coef.const 0)
+      ∧ (∀ c ∈ (dense (((0 : Int), Coef.strm gs) :: rest)).tail, c = Coef.const 0)))
+    (hfull : ∃ ys its, callTV num (((0 : Int), Coef.strm gs) :: rest) mem1 zero1 xs1 = .ok (ys, its)
+      ∧ ys.length = xs1.length) :
+    (callTwice num (((0 : Int), Coef.strm gs) :: rest) mem1 zero1 xs1 mem2 zero2 xs2).2.map Prod.fst
+      = .ok (tvspec (dense num) (dense (((0 : Int), Coef.strm gs) :: rest)).tail (Coef.strm gs) zero2
+              xs1.length
+              (memoryOf zero2 (dense (((0 : Int), Coef.strm gs) :: rest)).tail.length mem2) [] xs2) :=
+  callTwice_gain_continue num rest gs mem1 mem2 zero1 zero2 xs1 xs2 hnum hden hstored hcn hnz hfull
+
+/-- **C06.10c** (`refused_call_leaves_no_trace`): a call that raises (non-causal filter, no gain)
+changes nothing: the second call of the object is the first call with the second arguments. -/
+theorem refused_call_leaves_no_trace (num den : Terms (Coef K)) (mem1 mem2 : Mem K) (zero1 zero2 : K)
+    (xs1 xs2 : List K) (e : Err) (h : callTV num den mem1 zero1 xs1 = .error e) :
+    (callTwice num den mem1 zero1 xs1 mem2 zero2 xs2).2 = callTV num den mem2 zero2 xs2 := by
+  simp only [callTwice, objAfter, h]
+
+/-- **C06.10d** (`no_gain_raises`): a causal filter object whose denominator has lost its delay-0
+term (`filt.denpoly[0] = 0` on the object: `Poly.__setitem__` deletes the entry) refuses to run:
+`ZeroDivisionError("Invalid filter gain")`, before anything is read. -/
+theorem no_gain_raises (num rest : Terms (Coef K)) (mem : Mem K) (zero : K) (xs : List K)
+    (hcn : ∀ kv ∈ num, 0 ≤ kv.1) (hpos : ∀ kv ∈ rest, (0 : Int) < kv.1) :
+    callTV num rest mem zero xs = .error .zeroDivision :=
+  callTV_no_gain num rest mem zero xs hcn hpos
+
+/-- PENDING (not proved): the two-call contract `specCallTwice` from the raw constructor pairs equals
+`callTwice` on the normalised object for EVERY history (also when a coefficient stream ended the
+first output).  Proved above: both are the same `tvspec … |xs1| …` when the first output was ended
+by its input (C06.10a', C06.10b), the spec side being `continued_eq_dropped`. -/
+def callTwice_eq_specCallTwice_PENDING : Prop :=
+  ∀ (numPairs denPairs : List (Int × Coef K)) (mem1 mem2 : Mem K) (zero1 zero2 : K) (xs1 xs2 : List K)
+    (n0 d0 : Terms (Coef K)), normalise (mkPoly numPairs) (mkPoly denPairs) = .ok (n0, d0) →
+    ((callTwice n0 d0 mem1 zero1 xs1 mem2 zero2 xs2).1.map Prod.fst,
+     (callTwice n0 d0 mem1 zero1 xs1 mem2 zero2 xs2).2.map Prod.fst)
+      = specCallTwice numPairs denPairs mem1 zero1 xs1 mem2 zero2 xs2
 
 /-! ### C06.6 filter arithmetic acts on coefficient sequences element by element -/
 
@@ -526,6 +560,149 @@ theorem filter_add_elementwise (n : Nat) (fn fd gn gd : ALV.C07.MPoly (Coef K))
   rw [toLaurent_snap_add n _ _ (polyDefined_mul n fn _ h1 h4) (polyDefined_mul n gn _ h3 h2)
       (ALV.C07.wf_mul _ _).1 (ALV.C07.wf_mul _ _).1,
     toLaurent_snap_mul n fn _ h1 h4, toLaurent_snap_mul n gn _ h3 h2]
+
+/-! ### C06.11 `ZFilter` arithmetic on filter OBJECTS, and whole expressions of any depth
+
+`f.numAt n` / `f.denAt n`: the numerator / denominator polynomial of the filter object with every
+coefficient read at time `n` (Laurent polynomials; `z^-k` is `T^k`).  `h.IsAt n N D`: `h` read at
+time `n` is exactly the pair `(N, D)` up to the common delay `T^p` by which `LinearFilter.__init__`
+makes the denominator start at delay 0. -/
+
+/-- **C06.11a** (`zfilter_init`): `LinearFilter.__init__` on two `Poly`s with Stream coefficients:
+refuses exactly the empty denominator; otherwise the object read at any time `n` inside its Streams
+is the pair it was given, multiplied by a common `T^p` (`Poly.__mul__` by `Poly([0,1]) ** -power`). -/
+theorem zfilter_init (num den : ALV.C07.MPoly (Coef K)) :
+    ((∃ e, ZFT.make num den = .error e) ↔ den = [])
+    ∧ ∀ f, ZFT.make num den = .ok f → ∀ n, polyDefined n num → polyDefined n den →
+        f.IsAt n (ALV.C07.toLaurent (snap n num)) (ALV.C07.toLaurent (snap n den)) ∧ f.definedAt n :=
+  ⟨ZFT.make_error_iff num den, fun _ h n hn hd => ZFT.make_at h n hn hd⟩
+
+/-- **C06.11b** (`zfilter_mul_elementwise`): `ZFilter.__mul__` of two filter objects, any number of
+terms, any Streams: at every time `n` inside them the product object IS `(N_f·N_g) / (D_f·D_g)`. -/
+theorem zfilter_mul_elementwise (f g h : ZFT K) (e : f.mul g = .ok h) (n : Nat) (hf : f.definedAt n)
+    (hg : g.definedAt n) :
+    h.IsAt n (f.numAt n * g.numAt n) (f.denAt n * g.denAt n) ∧ h.definedAt n ∧ h.WF :=
+  ZFT.mul_at e n hf hg
+
+/-- **C06.11c** (`zfilter_div_elementwise`): `ZFilter.__truediv__` by a filter object:
+`(N_f·D_g) / (D_f·N_g)` at every time -/
+theorem zfilter_div_elementwise (f g h : ZFT K) (e : f.div g = .ok h) (n : Nat) (hf : f.definedAt n)
+    (hg : g.definedAt n) :
+    h.IsAt n (f.numAt n * g.denAt n) (f.denAt n * g.numAt n) ∧ h.definedAt n ∧ h.WF :=
+  ZFT.div_at e n hf hg
+
+/-- **C06.11d** (`zfilter_add_elementwise`): `ZFilter.__add__` of two filter objects: with equal
+denominators (`Poly.__eq__`: numbers by value, a Stream never — then they read the same at every
+time) the shortcut `(N_f + N_g) / D_f`; otherwise `(N_f·D_g + N_g·D_f) / (D_f·D_g)` built with
+`.copy()`s of the denominators — at every time `n`, for all polynomials. -/
+theorem zfilter_add_elementwise (f g h : ZFT K) (e : f.add g = .ok h) (n : Nat) (hf : f.definedAt n)
+    (hg : g.definedAt n) (wf : f.WF) (wg : g.WF) :
+    ((polyEqTV f.den g.den = true ∧ f.denAt n = g.denAt n
+        ∧ h.IsAt n (f.numAt n + g.numAt n) (f.denAt n))
+      ∨ (polyEqTV f.den g.den = false
+        ∧ h.IsAt n (f.numAt n * g.denAt n + g.numAt n * f.denAt n) (f.denAt n * g.denAt n)))
+    ∧ h.definedAt n ∧ h.WF :=
+  ZFT.add_at e n hf hg wf wg
+
+/-- **C06.11e** (`zfilter_neg_elementwise`): `-filter` -/
+theorem zfilter_neg_elementwise (f h : ZFT K) (e : f.neg = .ok h) (n : Nat) (hf : f.definedAt n)
+    (wf : f.WF) : h.IsAt n (- f.numAt n) (f.denAt n) ∧ h.definedAt n ∧ h.WF :=
+  ZFT.neg_at e n hf wf
+
+/-- **C06.11f** (`zfilter_scale_elementwise`): `filter * Stream`, `filter * number`
+(`ZFilter(self.numpoly * other, self.denpoly)`), and hence `filter / Stream` (`* (1 / other)`):
+the numerator is multiplied by the Stream's `n`-th value at every time `n` -/
+theorem zfilter_scale_elementwise (f h : ZFT K) (c : Coef K) (e : f.mulCoef c = .ok h) (n : Nat)
+    (hf : f.definedAt n) (hc : c.defined n) (wf : f.WF) :
+    h.IsAt n (f.numAt n * C (c.val n)) (f.denAt n) ∧ h.definedAt n ∧ h.WF :=
+  ZFT.mulCoef_at e n hf hc wf
+
+/-- **C06.11g** (`zfilter_atoms`): `z ** -k` is `T^k / 1`; `ZFilter([c])` for a number or a Stream
+`c` is `c[n] / 1` (a constant stream behaves like the constant: only `c.val n` is seen). -/
+theorem zfilter_atoms (n : Nat) :
+    (∀ (k : Nat) (f : ZFT K), ZFT.zpow k = .ok f →
+        f.numAt n = T (k : ℤ) ∧ f.denAt n = 1 ∧ f.definedAt n ∧ f.WF)
+    ∧ (∀ (c : Coef K) (f : ZFT K), ZFT.ofCoef c = .ok f → c.defined n →
+        f.numAt n = C (c.val n) ∧ f.denAt n = 1 ∧ f.definedAt n ∧ f.WF) :=
+  ⟨fun _ _ e => ZFT.zpow_at e n, fun _ _ e hc => ZFT.ofCoef_at e n hc⟩
+
+/-- **C06.11h** (`poly_copy_eq`, `poly_eq_reads_equal`): `Poly.copy()` hands out independent
+iterators over the same items; polynomials that `Poly.__eq__` calls equal read the same at any time -/
+theorem poly_copy_eq (p : ALV.C07.MPoly (Coef K)) : polyCopy p = p := polyCopy_eq p
+theorem poly_eq_reads_equal (p q : ALV.C07.MPoly (Coef K)) (h : polyEqTV p q = true)
+    (hp : (ALV.C07.keys p).Nodup) (hq : (ALV.C07.keys q).Nodup) (n : Nat) :
+    ALV.C07.toLaurent (snap n p) = ALV.C07.toLaurent (snap n q) :=
+  polyEqTV_at h hp hq n
+
+/-- **C06.11h'** (`poly_div_elementwise`): `Poly.__truediv__` on Stream coefficients — by a one-term
+`Poly` `w·x^d` (`w` a number or a Stream): the quotient read at time `n` is the dividend times
+`(1/w[n])·x^(-d)`, every coefficient divided by the `n`-th item of `w`; by a Stream / number `c`
+(`thub(other, len(self))`): the dividend times `1/c[n]`.  (The code shares ONE Stream object among all
+quotient coefficients in the first case: defect D22, the tie reports it as a known finding.) -/
+theorem poly_div_elementwise (p q : ALV.C07.MPoly (Coef K)) (n : Nat) (hp : polyDefined n p)
+    (kp : (ALV.C07.keys p).Nodup) :
+    (∀ (d : Int) (w : Coef K), ALV.C07.divPoly p [(d, w)] = .ok q → w.defined n →
+        ALV.C07.toLaurent (snap n q) = ALV.C07.toLaurent (snap n p) * (C (1 / w.val n) * T (-d)))
+    ∧ (∀ c : Coef K, ALV.C07.divScalar p c = .ok q → c.defined n →
+        ALV.C07.toLaurent (snap n q) = ALV.C07.toLaurent (snap n p) * C (1 / c.val n)) :=
+  ⟨fun _ _ e hw => divPoly_at e n hp hw kp, fun _ e hc => divScalar_at e n hp hc kp⟩
+
+/-- **C06.11i** (`expr_elementwise`, the algebra clause for EVERY expression, any depth): whatever
+Python builds from `z ** -k`, numbers and Streams with `+ - * /` and unary minus — dispatch
+filter∘filter / filter∘other / other∘filter (`__rbinary__`) / Stream∘Stream, `Poly` arithmetic with
+thub copies, shortcuts, compaction, normalisation — read at any time `n` inside all the Stream
+leaves is the value of the SAME expression computed by ordinary arithmetic on the `n`-th items of
+the leaves: a Stream / number `c` has `c[n] = ALV.C06.Tree.at n t`, a filter object `f` has
+`N_f / D_f = N / D` (`ALV.C06.Tree.at n t = frac N D`, cross-multiplied), and `f` is well formed. -/
+theorem expr_elementwise (n : Nat) (t : ALV.C06.Tree K) (v : Val K) (e : evalTree t = .ok v)
+    (hd : ALV.C06.Tree.definedAt n t) : Val.Rel n v (ALV.C06.Tree.at n t) :=
+  evalTree_rel n t v e hd
+
+/-- **C06.11j** (`expr_freeze`): building the filter from Streams and then reading it at time `n`
+gives the same fraction as reading the Streams at time `n` first and building the
+constant-coefficient filter (the filter of C04 / C05) from those numbers. -/
+theorem expr_freeze (n m : Nat) (t : ALV.C06.Tree K) (f f' : ZFT K) (e : evalTree t = .ok (.filt f))
+    (e' : evalTree (ALV.C06.Tree.freeze n t) = .ok (.filt f')) (hd : ALV.C06.Tree.definedAt n t) :
+    ∃ N D, ALV.C06.Tree.at n t = .frac N D ∧ f.numAt n * D = N * f.denAt n
+      ∧ f'.numAt m * D = N * f'.denAt m :=
+  evalTree_freeze n m t f f' e e' hd
+
+/-- **C06.11k** (`expr_constant_streams`, "a constant stream behaves like the constant" for whole
+expressions): if every Stream leaf delivers one and the same value for its first `N` items, then at
+EVERY time `n < N` the filter built from the Streams reads as the one fraction of the expression
+with the constants in place of the Streams (`ALV.C06.Tree.freeze 0 t`), which does not depend on `n`. -/
+theorem expr_constant_streams (N : Nat) (t : ALV.C06.Tree K) (f f' : ZFT K) (hconst : ALV.C06.Tree.constUpTo N t)
+    (e : evalTree t = .ok (.filt f)) (e' : evalTree (ALV.C06.Tree.freeze 0 t) = .ok (.filt f')) :
+    ∃ Nm D, ∀ n, n < N → ∀ m, f.numAt n * D = Nm * f.denAt n ∧ f'.numAt m * D = Nm * f'.denAt m := by
+  cases N with
+  | zero => exact ⟨0, 0, fun n hn => absurd hn (Nat.not_lt_zero n)⟩
+  | succ N =>
+    obtain ⟨hd0, _⟩ := ALV.C06.Tree.constUpTo_spec hconst (Nat.succ_pos N)
+    obtain ⟨Nm, D, hat, _, _⟩ := evalTree_freeze 0 0 t f f' e e' hd0
+    refine ⟨Nm, D, fun n hn m => ?_⟩
+    obtain ⟨hdn, hfr⟩ := ALV.C06.Tree.constUpTo_spec hconst hn
+    obtain ⟨N2, D2, hat2, h1, h2⟩ := evalTree_freeze n m t f f' e (by rw [hfr]; exact e') hdn
+    have : ALV.C06.Tree.at n t = ALV.C06.Tree.at 0 t := by
+      rw [← ALV.C06.Tree.at_freeze n 0 t, hfr, ALV.C06.Tree.at_freeze]
+    rw [this, hat] at hat2
+    cases hat2
+    exact ⟨h1, h2⟩
+
+/-- **C06.11l** (`expr_reads_once`, the read-count clause for a filter built by ANY expression):
+the polynomials the arithmetic leaves are in insertion order, with products of tee copies as
+coefficients — however many times a Stream was used, the generated loop gets ONE iterator per
+coefficient of the object (`values()`), and after `k` outputs every one of them has been advanced
+by exactly `k` items (constant gain; for a Stream gain see C06.4').  Each such coefficient is an
+element-wise combination of the leaves (C06.11i), so its `i`-th item needs the `i`-th item of every
+leaf in it and no other. -/
+theorem expr_reads_once (t : ALV.C06.Tree K) (f : ZFT K) (e : evalTree t = .ok (.filt f)) (mem : Mem K)
+    (zero : K) (xs : List K) (g : K) (hc : ∀ kv ∈ f.num ++ f.den, 0 ≤ kv.1)
+    (h0 : coefAt f.den 0 = Coef.const g) (hg : g ≠ 0) (k : Nat) (ys : List K) (its : Its K)
+    (hr : callTV f.num f.den mem zero xs = .ok (ys, its)) (hk : k ≤ ys.length) :
+    callTV f.num f.den mem zero (xs.take k)
+      = .ok (ys.take k, ⟨(dense f.num).map (fun c => c.items.drop k),
+                          (dense f.den).tail.map (fun c => c.items.drop k)⟩) :=
+  callTV_const_take f.num f.den mem zero xs g hc h0 hg k ys its hr hk
 
 /-! ### non-vacuity -/
 
@@ -654,24 +831,62 @@ example := second_call_continues_object [((0 : Int), Coef.const (1 : ℚ)), (1, 
   [1, 1, 1] [1, 1, 1] 2 (by simp) (by simp) (by simp) (by simp) (by simp [coefAt]) (by norm_num)
   (by intro h; have := h.1 (Coef.const 1) (by simp [dense, order, coefAt]; exact ⟨0, by omega, by simp⟩); simp at this)
   ⟨[1/2, 11/8, 85/48], ⟨[[], [4, 5, 6, 7, 8]], [[1/4, 1/5, 1/6, 1/7, 1/8]]⟩, by decide +kernel, rfl⟩
-/-- C06.10b: `(1 + z^-1) / (Stream(2,3,4,5,6,7,8,9) + Stream(1,…) z^-1)` called twice: the first call
-gives 1/2, 1/2, 3/8, the second raises ZeroDivisionError (observed on the real code) -/
+/-- C06.10b: `(1 + z^-1) / (Stream(2,3,4,5,6,7,8,9) + Stream(1,…) z^-1)` called twice: 1/2, 1/2, 3/8
+and then 1/5, 3/10, 17/70 (observed on the real code after the repair of D16) -/
 example : ((callTwice [((0 : Int), Coef.const (1 : Rat)), (1, Coef.const 1)]
       [(0, Coef.strm [2, 3, 4, 5, 6, 7, 8, 9]), (1, Coef.strm [1, 1, 1, 1, 1, 1, 1, 1])]
       Mem.none 0 [1, 1, 1] Mem.none 0 [1, 1, 1]).1.map Prod.fst,
      (callTwice [((0 : Int), Coef.const (1 : Rat)), (1, Coef.const 1)]
       [(0, Coef.strm [2, 3, 4, 5, 6, 7, 8, 9]), (1, Coef.strm [1, 1, 1, 1, 1, 1, 1, 1])]
       Mem.none 0 [1, 1, 1] Mem.none 0 [1, 1, 1]).2.map Prod.fst)
-    = (.ok [1/2, 1/2, 3/8], .error .zeroDivision) := by
+    = (.ok [1/2, 1/2, 3/8], .ok [1/5, 3/10, 17/70]) := by
   decide +kernel
-example := second_call_after_stream_gain [((0 : Int), Coef.const (1 : ℚ)), (1, Coef.const 1)]
+example := second_call_continues_stream_gain [((0 : Int), Coef.const (1 : ℚ)), (1, Coef.const 1)]
   [(1, Coef.strm [1, 1, 1, 1, 1, 1, 1, 1])] [2, 3, 4, 5, 6, 7, 8, 9] Mem.none Mem.none 0 0 [1, 1, 1] [1, 1, 1]
-  (by simp) (by simp)
-/-- … where the contract for the two-call history says 1/2, 1/2, 3/8 and then 1/5, 3/10, 17/70 -/
+  (by simp) (by simp) (by simp) (by simp)
+  (by intro h; have := h.1 (Coef.const 1) (by simp [dense, order, coefAt]; exact ⟨0, by omega, by simp⟩); simp at this)
+  ⟨[1/2, 1/2, 3/8], ⟨[[1/5, 1/6, 1/7, 1/8, 1/9], [1/5, 1/6, 1/7, 1/8, 1/9]], [[1/5, 1/6, 1/7, 1/8, 1/9]]⟩,
+    by decide +kernel, rfl⟩
+/-- … which is what the contract for the two-call history says -/
 example : specCallTwice [((0 : Int), Coef.const (1 : Rat)), (1, Coef.const 1)]
       [(0, Coef.strm [2, 3, 4, 5, 6, 7, 8, 9]), (1, Coef.strm [1, 1, 1, 1, 1, 1, 1, 1])]
       Mem.none 0 [1, 1, 1] Mem.none 0 [1, 1, 1]
     = (.ok [1/2, 1/2, 3/8], .ok [1/5, 3/10, 17/70]) := by decide +kernel
+/-- C06.10c / d: a non-causal object refuses twice; an object whose gain was deleted raises -/
+example := refused_call_leaves_no_trace [((-1 : Int), Coef.strm [(1 : ℚ)])] [(0, Coef.const 1)] Mem.none Mem.none
+  0 0 [1] [1] .valueError (noncausal _ _ _ _ _ ⟨((-1 : Int), Coef.strm [1]), by simp, by simp⟩)
+example : callTV [((0 : Int), Coef.const (1 : Rat))] (ALV.C07.setItem [((0 : Int), Coef.const 2), (1, Coef.strm [1, 2])] 0 0)
+    Mem.none 0 [1, 1] = .error .zeroDivision := by decide +kernel
+example := no_gain_raises [((0 : Int), Coef.const (1 : ℚ))] [(1, Coef.strm [1, 2])] Mem.none 0 [1, 1]
+  (by simp) (by simp)
+
+/-- C06.11: `(Stream(1,2,3) * z^-1 + 1) * (z^-1 * Stream(2,2,2) - 3)` and a quotient with a Stream a0 -/
+example : (match evalTree (ALV.C06.Tree.mul (.add (.mul (.s [(1 : Rat), 2, 3]) (.z 1)) (.c 1))
+      (.sub (.mul (.z 1) (.s [2, 2, 2])) (.c 3))) with
+    | .ok (.filt f) => (f.num, f.den)
+    | _ => ([], []))
+    = ([(2, Coef.strm [2, 4, 6]), (1, Coef.strm [-1, -4, -7]), (0, Coef.const (-3))],
+       [(0, Coef.const 1)]) := by decide +kernel
+example : ALV.C06.Tree.definedAt 2 (ALV.C06.Tree.mul (.add (.mul (.s [(1 : ℚ), 2, 3]) (.z 1)) (.c 1))
+      (.sub (.mul (.z 1) (.s [2, 2, 2])) (.c 3))) := by simp [ALV.C06.Tree.definedAt]
+example : (match evalTree (ALV.C06.Tree.div (.add (.z 1) (.c (1 : Rat))) (.add (.s [2, 3, 4]) (.mul (.s [1, 1, 1]) (.z 1)))) with
+    | .ok (.filt f) => (f.num, f.den)
+    | _ => ([], []))
+    = ([(1, Coef.const 1), (0, Coef.const 1)], [(0, Coef.strm [2, 3, 4]), (1, Coef.strm [1, 1, 1])]) := by
+  decide +kernel
+example := fun v e => expr_elementwise 2 (ALV.C06.Tree.mul (.add (.mul (.s [(1 : ℚ), 2, 3]) (.z 1)) (.c 1))
+      (.sub (.mul (.z 1) (.s [2, 2, 2])) (.c 3))) v e (by simp [ALV.C06.Tree.definedAt])
+/-- D22's witness in the model: `Poly({0: 1, 1: 2}) / Poly({0: Stream(1,2,3)})` is `1/s[n] + (2/s[n]) x` -/
+example : ALV.C07.divPoly [((0 : Int), Coef.const (1 : Rat)), (1, Coef.const 2)] [(0, Coef.strm [1, 2, 3])]
+    = .ok [(0, Coef.strm [1, 1/2, 1/3]), (1, Coef.strm [2, 1, 2/3])] := by decide +kernel
+/-- constant streams: `Stream(2,2,2) * z^-1 + 1` against `2 * z^-1 + 1` -/
+example : ALV.C06.Tree.constUpTo 3 (ALV.C06.Tree.add (.mul (.s [(2 : ℚ), 2, 2]) (.z 1)) (.c 1)) := by
+  refine ⟨⟨⟨by simp, ?_⟩, trivial⟩, trivial⟩
+  intro n hn
+  have : n = 0 ∨ n = 1 ∨ n = 2 := by omega
+  rcases this with rfl | rfl | rfl <;> rfl
+example : ALV.C06.Tree.freeze 0 (ALV.C06.Tree.add (.mul (.s [(2 : Rat), 2, 2]) (.z 1)) (.c 1))
+    = ALV.C06.Tree.add (.mul (.c 2) (.z 1)) (.c 1) := rfl
 
 end ALV.Props.C06
 
